@@ -169,7 +169,7 @@ func gen(t *rapid.T) Case {
 		case 0:
 			c.Sec = rapid.SampledFrom([]int64{0, 1, -1, 127, 128, 16383, 16384, 1<<31 - 1, 1 << 31, 1 << 35, 253402300799, -62135596800, -62135596801, 1 << 55, -(1 << 55)}).Draw(t, "sec")
 		case 1:
-			c.Sec = rapid.Int64Range(-(1 << 55), -1).Draw(t, "sec")
+			c.Sec = rapid.Int64Range(-(1<<55), -1).Draw(t, "sec")
 		case 2:
 			c.Sec = rapid.Int64Range(0, 1<<55).Draw(t, "sec")
 		default:
@@ -444,8 +444,8 @@ func run(c Case) kit.Result {
 
 var spec = kit.Spec[Case]{
 	Prop: "C17", Name: "main",
-	Rule: "BasicDirectory in block-size mode (directly or inside a DynamicDirectory), mode 0..07777, mtime over sign/nanosecond classes, 1-10 names of 0..300 bytes (varint boundaries), targets over CIDv0/v1 x hash lengths (incl. truncated, identity) with Tsize over varint length classes 0..2^63-1, 1-25 (thorough 40) ops add/replace/remove/remove-missing/reload; estimate == len(RawData()) after every step; non-trivial = a replacement changed the Tsize varint class, or the mtime is negative / has nanoseconds (mode classes with type bits are executed but only counted)",
-	Quick: 20000, Thorough: 100000,
+	Rule:  "BasicDirectory in block-size mode (directly or inside a DynamicDirectory), mode 0..07777, mtime over sign/nanosecond classes, 1-10 names of 0..300 bytes (varint boundaries), targets over CIDv0/v1 x hash lengths (incl. truncated, identity) with Tsize over varint length classes 0..2^63-1, 1-25 (thorough 40) ops add/replace/remove/remove-missing/reload; estimate == len(RawData()) after every step; non-trivial = a replacement changed the Tsize varint class, or the mtime is negative / has nanoseconds (mode classes with type bits are executed but only counted)",
+	Quick: 15000, Thorough: 100000,
 	Gen: gen, Run: run,
 }
 
